@@ -538,6 +538,8 @@ def c14_jobs(tier):
     return [
         Job('lockstep', 'c14', 'hist', q(tier, 8000, 400000), timeout=q(tier, 900, 10000)),
         Job('lockstep-arduino', 'c14', 'hist', q(tier, 6000, 300000), shim=True, timeout=q(tier, 900, 10000)),
+        Job('sharing', 'c14', 'sharing', q(tier, 3000, 100000), timeout=q(tier, 900, 10000)),
+        Job('sharing-short-lengths', 'c14', 'sharing', q(tier, 3000, 100000), defines={'ARDUINOJSON_STRING_LENGTH_SIZE': 1, 'ARDUINOJSON_SLOT_ID_SIZE': 2, 'ARDUINOJSON_POOL_CAPACITY': 16}, timeout=q(tier, 900, 10000)),
         Job('lockstep-small', 'c14', 'hist', q(tier, 4000, 200000), defines={'ARDUINOJSON_STRING_LENGTH_SIZE': 1, 'ARDUINOJSON_SLOT_ID_SIZE': 1, 'ARDUINOJSON_POOL_CAPACITY': 4, 'ARDUINOJSON_DEBUG': 1}, timeout=q(tier, 900, 10000)),
     ]
 
